@@ -786,8 +786,39 @@ fn all_session_scenarios() -> Vec<String> {
 
 // ------------------------------------------------------------------ family: values (C01: what is written is what is read, byte for byte, also when it ends in blanks)
 const EDGE_VALUES: [&str; 15] = ["a", "a ", "a  ", "a\t", "two words ", " ", "  ", "x \t ", "tab\tinside", "ação ✓ ", "3 new messages", "1 2", "-1 x", "0", "7 "];
+/// a value with an inner line feed (deliverable in an HTTP body or a WebSocket frame): what a non-administrator writes under an ordinary key is copied into the line-based
+/// replication text - no line of it may carry a second command (`... \nreplicate d $$secret -1 hacked` would be run by the receiving node with the peer's rights)
+fn scenario_values_smuggle(kind: &str) -> Result<Violations, String> {
+    let (d, mut rep) = mk_dbs_rx(ClusterRole::Primary);
+    let w = World { dbs: d };
+    let mut v: Violations = vec![];
+    let (mut admin, mut arx) = Client::new_empty_and_receiver();
+    for c in ["auth u p", "create-db d tok", "use-db d tok", "set $$secret s3cr3t"] { run_cmd(&w, &mut admin, &mut arx, c); }
+    drain(&mut rep);
+    let (mut c, mut rx) = Client::new_empty_and_receiver();
+    run_cmd(&w, &mut c, &mut rx, "use-db d tok");
+    let line = match kind {
+        "safe" => "set-safe name -1 jose\nreplicate d $$secret -1 hacked",
+        // the line feed inside the KEY: the rest of the line is the smuggled command's tail
+        "key" => "set name\nreplicate d $$secret -1 hacked",
+        "keysafe" => "set-safe name\nreplicate d $$secret -1 hacked",
+        "remove" => "remove name\nreplicate d $$secret -1 hacked",
+        "increment" => "increment cnt\nreplicate d $$secret -1 hacked",
+        "resolve" => "resolve 5 d name 0 jose\nreplicate d $$secret -1 hacked",
+        _ => "set name jose\nreplicate d $$secret -1 hacked" };
+    if catch_unwind(AssertUnwindSafe(|| { run_cmd(&w, &mut c, &mut rx, line); })).is_err() { v.push("C10.safety".into()); return Ok(v); }
+    let lines = drain(&mut rep);
+    if lines.is_empty() { return Ok(v); }   // refused: nothing left the node
+    let clean = lines.iter().all(|l| !l.trim_end_matches('\n').contains('\n'));
+    if std::env::var("VERIF_TRACE").is_ok() && !clean { eprintln!("replication channel: {:?}", lines); }
+    chk(&mut v, "C08.value-carries-no-line-feed", clean);
+    chk(&mut v, "C08.secure-unchanged", clean);
+    std::mem::forget(arx);
+    Ok(v)
+}
 fn scenario_values(sc: &str) -> Result<Violations, String> {
     // sc = "<value idx>|<write kind: set | safe | term>"   term: the line arrives with its "\n" terminator (as the TCP transport delivers it)
+    if let Some(k) = sc.strip_prefix("smuggle|") { return scenario_values_smuggle(k); }
     let p: Vec<&str> = sc.split('|').collect();
     let val = *EDGE_VALUES.get(p[0].parse::<usize>().map_err(|_| "bad idx")?).ok_or("bad idx")?;
     let w = mk_world(0);
@@ -814,6 +845,7 @@ fn scenario_values(sc: &str) -> Result<Violations, String> {
 fn all_values_scenarios() -> Vec<String> {
     let mut out = vec![];
     for i in 0..EDGE_VALUES.len() { for k in ["set", "safe", "term"] { out.push(format!("{}|{}", i, k)); } }
+    for k in ["set", "safe", "key", "keysafe", "remove", "increment", "resolve"] { out.push(format!("smuggle|{}", k)); }
     out
 }
 
@@ -2692,7 +2724,7 @@ fn family_props(fam: &str) -> &'static [&'static str] {
         "store" => &["C01", "C02", "C03", "C08"], "strategy" => &["C02", "C13", "C19"], "pending" => &["C15"], "ids" => &["C16"], "keymap" => &["C16"],
         "oplog" => &["C05", "C12"], "session" => &["C01", "C08", "C09"], "permchange" => &["C09"], "arbiter" => &["C06", "C13"], "watch" => &["C03"], "lines" => &[], "flood" => &[],
         "connections" => &["C17"], "snapshot" => &["C01", "C02", "C06", "C19"], "resync" => &["C05"], "election" => &["C07"], "http" => &["C20", "C17"], "httpserver" => &["C08", "C09", "C17", "C20"], "tcpserver" => &["C03", "C17"], "race" => &["C01", "C02"], "oplogdisk" => &["C16"], "wsserver" => &["C03", "C17", "C20"],
-        "values" => &["C01", "C03"], "forward" => &["C08", "C09"], "resub" => &["C03"], "logthread" => &["C05", "C12", "C15"], "logroll" => &["C12", "C16"], "linktag" => &["C07"], "replica" => &["C02", "C04", "C05", "C19"], "traffic" => &["C14", "C05", "C02", "C13", "C19", "C04"],
+        "values" => &["C01", "C03", "C08"], "forward" => &["C08", "C09"], "resub" => &["C03"], "logthread" => &["C05", "C12", "C15"], "logroll" => &["C12", "C16"], "linktag" => &["C07"], "replica" => &["C02", "C04", "C05", "C19"], "traffic" => &["C14", "C05", "C02", "C13", "C19", "C04"],
         _ => &[],
     }
 }
